@@ -398,7 +398,6 @@ def _per_category(rep, prog, dc, FD):
             for x, y in ((a, b), (b, a)):
                 if x[0] == 'fld' and x[2] == 'decay_category' and y[0] == 'num':
                     return (y[1] == cat) == (e[1] == '==')
-            return None
         if k == 'call' and e[1].split('::')[-1] in ('count', 'contains') and len(e) >= 3 and e[2][0] == 'call':
             which = e[2][1].split('::')[-1]
             if which == absent:
@@ -407,6 +406,10 @@ def _per_category(rep, prog, dc, FD):
                 return True
         if k == 'op' and e[1] in ('>', '!=') and len(e) == 4 and e[3][0] == 'num' and e[3][1] == 0:
             return ev(e[2], cat, absent, present)
+        if k == 'op' and e[1] in ('==', '<=', '<') and len(e) == 4 and e[3][0] == 'num' and e[3][1] == (1 if e[1] == '<' else 0) \
+                and e[2][0] == 'call':
+            v = ev(e[2], cat, absent, present)             # count(..) == 0 / <= 0 / < 1
+            return None if v is None else (not v)
         return None
     for name, cat, absent, present in scen:
         seen, st, leak = set(), [(FD.g.entry.id, ())], None
